@@ -734,8 +734,10 @@ def _sweep(self, i, step, hooks, viol):
             self.objs[new_step["obj"]] = cls(**new_step["cfg"])
         self.objcfg[new_step["obj"]] = (step["cls"], new_step["cfg"])
 
-    st = np.random.get_state()
     fresh()
+    # RNG state every sub-run starts from: the state right AFTER construction, so that a
+    # seeded constructor really seeds the stream the call consumes ("quiet schedule")
+    st = np.random.get_state()
     brec = self.run_op(i, base_call, rng_state=st, record_funcs=True)
     K = brec["lines"]
     fmap = self.funcmap or []
@@ -750,7 +752,12 @@ def _sweep(self, i, step, hooks, viol):
         fidx = [j + 1 for j, f in enumerate(fmap) if f in focus]
         ks = set()
         for _ in range(int(step["picks"])):
-            if fidx and R.random() < 0.6:
+            x = R.random()
+            if K > 0 and x < 0.2:
+                # the tail of an operation is where results are published: bias some crash
+                # points to the last line events of the call
+                ks.add(R.randint(max(1, K - 80), K))
+            elif fidx and x < 0.65:
                 ks.add(R.choice(fidx))
             elif K > 0:
                 ks.add(R.randint(1, K))
